@@ -112,6 +112,25 @@ CHECKS = {
              "heuristic scores of non-terminal positions inside the thresholds.",
         design_ref="DESIGN.md section 4, C05",
         note=TB_COMMON + " Relies on C01 (legal move list; its G4 rule is re-run here) and C10 (check detection)."),
+    "C03": dict(
+        category="other",
+        technique="static analysis: value-provenance of every move stored in the table / replayed into a reported line (def-use terms, path-sensitive term propagation "
+                  "of the line iterator), dominance of recursion and inserts by the legality test, argument plumbing; re-runs C08's hash rules and C15's sequential table rules",
+        text="Decides the structural route 'legal where written, key identifies legality, faithful table': every insert stores under hash(game_state) the move payload of "
+             "try_as_legal_move(game_state); the line walk reads under hash(current state) with the same hasher/tables, applies that move to that state and advances; the "
+             "root priority move is re-validated; recursion passes memory unchanged. With the C08/C15 rules re-run here this entails that replayed moves are legal up to "
+             "64-bit collisions, for all seeds, interleavings and reused artifacts. NOT decided: non-empty line, at least one report, timing/eviction effects.",
+        design_ref="DESIGN.md section 4, C03",
+        note=TB_COMMON + " 64-bit hash collisions ignored. Read-side validation (route A) would also be sound but is not what the code does; only route B is recognised."),
+    "C16": dict(
+        category="other",
+        technique="static analysis: path-sensitive term propagation of the book scan closure (key/move/advance/order), term checks of lookup and append, generic-argument "
+                  "comparison of the build-time and run-time hasher construction, must-pass-through on the per-game builder closure; re-runs C08's hash rules",
+        text="Decides structural clauses O1-O6: entries are (hash(state), a member of compute_legal_moves(state)) with the state advanced afterwards; lookup reads with the "
+             "book's hasher and returns the stored set unchanged; build script and engine construct the hasher identically from the published seed; depth constant 10 applied "
+             "by take(); append unions; every parsed move of every game is appended. With C08 (re-run) equal keys imply equal legal moves. Corpus replay is NOT decided.",
+        design_ref="DESIGN.md section 4, C16",
+        note=TB_COMMON + " env!/include_bytes! make seed and data file compile-time dependencies; ciborium round-trips the map."),
 }
 
 NOT_BUILT_REASON = "check not built yet (see DESIGN.md for the plan)"
